@@ -263,8 +263,10 @@ Class ==
       cpS  == {cpE[i].ref : i \in {j \in 1..Len(cpE) : cpE[j].k = "S"}}
       out  == {<<segE[i].k, segE[i].ref \in cpS>> : i \in {j \in 1..Len(segE) : segE[j].k # "S" /\ segE[j].ref \notin Refs(series')}}
       acts == {hist'[i].a : i \in 1..Len(hist')}       \* which kinds of steps the history contains
+      \* live exemplars that this step removed from the log (dropped together with their series record)
+      xlost == \E i \in 1..Len(Log) : Log[i].k = "X" /\ Log[i].t >= T' /\ ~\E j \in 1..Len(LogP) : LogP[j] = Log[i]
       delNow == {<<deleted'[r].seg - first', deleted'[r].lt >= T'>> : r \in DOMAIN deleted'}   \* how far ahead of the first segment series records are kept
-  IN IF st.a = "Truncate" THEN <<"Truncate", st.ckpt, st.gc > 0, orph, dup, delNow, kdel, edge, dep, out, pend.on, Cardinality(series'), acts>>
+  IN IF st.a = "Truncate" THEN <<"Truncate", st.ckpt, st.gc > 0, orph, dup, delNow, kdel, edge, dep, out, xlost, pend.on, Cardinality(series'), acts>>
      ELSE IF st.a = "Restart" THEN <<"Restart", orph, dup, DOMAIN deleted' # {}, dep, cp.idx >= 0, nextRef' < nextRef>>
      ELSE IF st.a = "Append" THEN <<"Append", st.res, st.fresh, st.lit, st.k, dup, cp.idx >= 0, Len(pend.smp)>>
      ELSE IF st.a = "Commit" THEN <<"Commit", st.nrec, st.cut, orph, dup, cp.idx >= 0, LateSeries', acts>>
